@@ -61,6 +61,18 @@ func corpus() []Case {
 		{Kind: "serve", Setup: []string{"ibb-listen"}, Seq: canon["ibb"], Labels: []string{"corpus/ibb-session"}},
 		{Kind: "serve", Setup: []string{"receipt-pending"}, Seq: []string{canon["receipts"][1], canon["receipts"][1]}, Labels: []string{"corpus/receipts-pending"}},
 		{Kind: "serve", Setup: []string{"muc-join"}, Seq: []string{canon["muc"][1], canon["muc"][0], canon["muc"][2]}, Labels: []string{"corpus/muc-join"}},
+		// application-side state between stanzas (full local address unless Bare)
+		// ibb: the listener is closed, then the peer opens a stream to the session's address
+		{Kind: "serve", Seq: []string{"@ibb-listen", "@ibb-acceptor", "@ibb-close-listener", canon["ibb"][0], canon["ping"][0]}, Labels: []string{"corpus/ibb-open-after-listener-close"}},
+		{Kind: "serve", Seq: []string{"@ibb-listen", "@ibb-close-listener", canon["ibb"][0], "@ibb-listen", "@ibb-acceptor", canon["ibb"][5], canon["ibb"][1]}, Labels: []string{"corpus/ibb-listen-close-listen"}},
+		{Kind: "serve", Bare: true, Seq: []string{"@ibb-listen", "@ibb-acceptor", canon["ibb"][0], "@ibb-close-listener", canon["ibb"][5]}, Labels: []string{"corpus/ibb-open-after-listener-close-bare"}},
+		{Kind: "serve", Seq: []string{"@ibb-listen", "@ibb-acceptor", "@ibb-expect", canon["ibb"][0], canon["ibb"][1], "@ibb-expect", "@ibb-expect-cancel", canon["ibb"][5], "@ibb-conn-close", canon["ibb"][2]}, Labels: []string{"corpus/ibb-expect-cancel"}},
+		// muc: joined, removed by the room with no Leave pending, joined again, removed again
+		{Kind: "serve", Seq: []string{"@muc-join", canon["muc"][0], canon["muc"][2], "@muc-rejoin", canon["muc"][0], canon["muc"][2], canon["ping"][0]}, Labels: []string{"corpus/muc-removed-twice"}},
+		{Kind: "serve", Seq: []string{"@muc-join", canon["muc"][0], canon["muc"][2], "@muc-rejoin", canon["muc"][0], "@muc-leave", canon["muc"][2], "@muc-rejoin", canon["muc"][0], canon["muc"][2]}, Labels: []string{"corpus/muc-removed-leave-removed"}},
+		// history and receipts: iterators and pending sends opened and given up between stanzas
+		{Kind: "serve", Seq: []string{"@hist-fetch-consume", canon["history"][0], "@hist-close", canon["history"][0], canon["history"][1]}, Labels: []string{"corpus/history-close-between"}},
+		{Kind: "serve", Seq: []string{"@rcpt-send", "@rcpt-cancel", canon["receipts"][1], "@rcpt-send", canon["receipts"][1], canon["receipts"][1]}, Labels: []string{"corpus/receipts-cancel-between"}},
 		// helpers
 		{Kind: "helper", Helper: "version", Replies: txt(res(`text<query xmlns='jabber:iq:version'/>`)), Labels: []string{"corpus/unmarshal-text-first"}},
 		{Kind: "helper", Helper: "version", Replies: txt(res(` <query xmlns='jabber:iq:version'><name>n</name></query>`)), Labels: []string{"corpus/unmarshal-space-first"}},
@@ -118,9 +130,18 @@ func genCases(o hx.Opts) []Case {
 	}
 	setups := [][]string{nil, nil, nil, {"hist-consumer"}, {"hist-consumer", "ibb-listen"}, {"ibb-listen", "receipt-pending"}, {"muc-join"}, {"hist-consumer", "ibb-listen", "receipt-pending", "muc-join"}}
 	for i := 0; i < nSeq; i++ {
-		c := Case{Kind: "serve", End: "close", Setup: setups[r.Intn(len(setups))]}
+		c := Case{Kind: "serve", End: "close", Setup: setups[r.Intn(len(setups))], Bare: r.Chance(3, 10)}
 		if r.Chance(1, 5) {
 			c.End = "eof"
+		}
+		if r.Chance(1, 4) {
+			// application-side operations interleaved with the peer's stanzas
+			c.Setup = nil
+			c.Seq, c.Labels = genOpSeq(r)
+			t := c
+			t.Tap = true
+			cs = append(cs, c, t)
+			continue
 		}
 		n := 1 + r.Intn(5)
 		// a sequence stays mostly within one family so that state from earlier stanzas is exercised
@@ -159,6 +180,103 @@ func genCases(o hx.Opts) []Case {
 		cs = append(cs, Case{Kind: "func", Func: f, Seq: []string{s}, Labels: labels})
 	}
 	return cs
+}
+
+// genOpSeq interleaves application-side operations with (mostly mutated)
+// stanzas of one family. The walk keeps to histories in which a registered
+// listener is always accepted from: a listener nobody accepts from parks Serve
+// by design (known finding, exercised by one corpus case of the thorough tier).
+func genOpSeq(r *hx.Rand) (seq []string, labels []string) {
+	st := func(fam string, i int) {
+		if i >= 0 && r.Chance(2, 3) {
+			seq = append(seq, canon[fam][i]) // the canonical stanza: state moves on
+			labels = append(labels, "fam/"+fam, "mut/none")
+			return
+		}
+		s, l := genStanzaD(r, fam, false)
+		seq = append(seq, s)
+		labels = append(labels, l...)
+	}
+	n := 3 + r.Intn(6)
+	switch r.Intn(4) {
+	case 0: // ibb
+		labels = append(labels, "ops/ibb")
+		open := false
+		for i := 0; i < n; i++ {
+			switch k := r.Intn(9); {
+			case k == 0 && !open:
+				seq = append(seq, "@ibb-listen", "@ibb-acceptor")
+				open = true
+			case k == 1 && open:
+				seq = append(seq, "@ibb-close-listener")
+				open = false
+			case k == 2 && open:
+				seq = append(seq, "@ibb-expect")
+				if r.Chance(1, 2) {
+					seq = append(seq, "@ibb-expect-cancel")
+				}
+			case k == 3:
+				seq = append(seq, "@ibb-conn-close")
+			case k == 4:
+				st("ibb", 0)
+			case k == 5:
+				st("ibb", 5)
+			default:
+				st("ibb", -1)
+			}
+		}
+		st("ibb", 0)
+	case 1: // muc
+		labels = append(labels, "ops/muc")
+		joined, ever := false, false
+		for i := 0; i < n; i++ {
+			switch k := r.Intn(8); {
+			case (k == 0 || !ever) && !joined:
+				if !ever {
+					seq = append(seq, "@muc-join")
+				} else {
+					seq = append(seq, "@muc-rejoin")
+				}
+				seq = append(seq, canon["muc"][0])
+				joined, ever = true, true
+			case k == 1 && joined:
+				seq = append(seq, "@muc-leave")
+			case (k == 2 || k == 3) && joined:
+				seq = append(seq, canon["muc"][2])
+				joined = false
+			case k == 4:
+				seq = append(seq, "@muc-rejoin", canon["muc"][0])
+				joined = true
+			default:
+				st("muc", -1)
+			}
+		}
+	case 2: // history
+		labels = append(labels, "ops/history")
+		for i := 0; i < n; i++ {
+			switch r.Intn(5) {
+			case 0:
+				seq = append(seq, "@hist-fetch-consume")
+			case 1:
+				seq = append(seq, "@hist-close")
+			default:
+				st("history", -1)
+			}
+		}
+	default: // receipts
+		labels = append(labels, "ops/receipts")
+		for i := 0; i < n; i++ {
+			switch r.Intn(5) {
+			case 0:
+				seq = append(seq, "@rcpt-send")
+			case 1:
+				seq = append(seq, "@rcpt-cancel")
+			default:
+				st("receipts", -1)
+			}
+		}
+	}
+	return seq, labels
 }
 
 // ---- worker ----
